@@ -45,6 +45,31 @@ CHECKS = {
    technique='enumeration of all sequences of successful/failing flights on one real builder instance to a depth bound (undeduplicated) plus BFS deduplicated by a fingerprint of the builder attributes; differential oracle vs brand-new builder',
    text='Every sequence of the event alphabet (valid missions, explicit starting mass, unknown airports, airport above cruise level, out-of-envelope mass, weather variants) up to the depth bound is flown on one builder per option set; each flight must be bit-identical to a fresh builder and each refusal must carry the original reason.',
    note='50-point phases; depth 2-3 (thorough 3-4) undeduplicated, BFS to depth 3 (6); shipped performance model', ref='DESIGN.md §4 C17'),
+
+ 'C01': dict(cat='exploration', engine='BEX',
+   technique='bounded-exhaustive enumeration of trajectory shapes x all phase windows x all zero/positive burn patterns x fuels x LTO/APU/EDB data x classes x configuration spine, full supported-option product, back-to-back pairs on shared objects; independent re-summation oracle',
+   text='Every case of the declared sub-lattices (S1 shapes x windows x burn patterns, S2 data sets, S3 all 31 104 supported configurations, S4 ordered config pairs on the same objects, S5 simulated flight) is evaluated by the real compute_emissions and re-summed independently; inputs must not be mutated and results must not depend on history.',
+   note='lattice values only; numpy trusted; APU CO2 positivity for absurd APU data not claimed', ref='DESIGN.md §4 C01'),
+ 'C04': dict(cat='exploration', engine='BEX',
+   technique='bounded-exhaustive enumeration of grids x 2-4-point paths over a sub-cell lattice (interior, on-line, corner, meridian/parallel, antimeridian, repeated points) with an exact rational-parameter interval oracle',
+   text='All ordered point pairs of the millidegree lattice on four grids plus 3/4-point, antimeridian, vertical/time and variable-count families are gridded by the real code; per segment the pieces must sum to the value times the oracle\'s own map-line excess (never less, never more).',
+   note='pyproj geodesic trusted; shapely stubbed (only grid_polygon uses it); poles and >1 antimeridian crossing excluded', ref='DESIGN.md §4 C04'),
+ 'C05': dict(cat='exploration', engine='BEX',
+   technique='same enumerated space as C04 judged by a brute-force dense-sampling binning oracle (2000 micro-intervals per segment), disagreements re-judged by the exact interval oracle before reporting',
+   text='For every enumerated path the cell of every piece, path order, altitude/time cell, state values and per-cell shares are compared with an independent binning of the straight map line.',
+   note='share tolerance 1.1e-3 (validated: max deviation 4.8e-4); exact-touch cases accept either neighbour', ref='DESIGN.md §4 C05'),
+ 'C12': dict(cat='exploration', engine='BEX',
+   technique='bounded-exhaustive lattice (every branch point +-1 ulp) over altitude x Mach x fuel flow x certification sets x fuels against scalar re-implementations of the cited equations',
+   text='ISA, FFM2, BFFM2 NOx, HC/CO, SOx, FOA3, fuel-flow PMvol and SCOPE11 are compared point by point (1e-9) with independent scalar references on the complete lattice; MEEM is checked for finiteness, non-negativity, linearity and category monotonicity.',
+   note='references written from the equations documented in the code/papers; lattice only', ref='DESIGN.md §4 C12'),
+ 'C13': dict(cat='exploration', engine='BEX',
+   technique='bounded-exhaustive enumeration of schedule rows (airport pairs x effective ranges x weekday sets x local times x arrival offsets, distance lattice, full skip-reason product, row sequences) against a stdlib datetime/zoneinfo expansion and an independent Vincenty distance rule',
+   text='Every enumerated row is imported through the real importer into an in-memory database and the flight/schedule tables and warnings are compared with the reference expansion; one open known finding (distance check argument order, pinned by an existing test).',
+   note='harness time-zone table for 31 airports; DST gap/fold times accept either interpretation', ref='DESIGN.md §4 C13'),
+ 'C19': dict(cat='exploration', engine='BEX',
+   technique='bounded-exhaustive lattice over engine types x parameter sets x profiles x masses x iteration counts x 4 entry points against a scalar BADA-3 reference with the same fixed-point iteration and trapezoid rule',
+   text='Every lattice case runs the real Bada3FuelBurnModel; mass profiles, thrust regimes and fuel flow are re-derived point by point by an independent scalar reference; two calls on one model object cover history dependence.',
+   note='synthetic coefficient sets (licensed OPF data not used); lattice only', ref='DESIGN.md §4 C19'),
 }
 NOT_YET = {}
 
